@@ -46,7 +46,13 @@ where
 /// re-executions is a violation; otherwise the case is inconclusive.
 pub fn judge(exec: impl Fn() -> CaseResult, liveness_promised: bool, timeout_signature: &str) -> Outcome {
     let panics_before = vcore::panic_log_len();
-    let r = exec();
+    let mut r = exec();
+    // a case whose set-up failed (e.g. a connect lost under load) is retried before it is given up
+    for _ in 0..2 {
+        if matches!(r, CaseResult::Skip(_)) {
+            r = exec();
+        }
+    }
     let panics = vcore::panic_log_since(panics_before);
     match r {
         CaseResult::Pass { nontrivial, labels } => {
@@ -55,7 +61,19 @@ pub fn judge(exec: impl Fn() -> CaseResult, liveness_promised: bool, timeout_sig
             }
             Outcome::pass_l(nontrivial, labels)
         }
-        CaseResult::Violation { signature, message } => Outcome::fail(signature, message),
+        CaseResult::Violation { signature, message } => {
+            // Confirm by re-execution: a deviation caused by the environment (a CONNECTION_CLOSE
+            // packet dropped by an overloaded loop-back socket, a connect lost under load) does
+            // not come back, a defect of the code under test does (the harness arranges the
+            // timing the case needs). Reported only if it shows again in 3 more executions.
+            for _ in 0..3 {
+                if let CaseResult::Violation { signature: s2, message: m2 } = exec() {
+                    let same_class = s2.split(':').take(2).eq(signature.split(':').take(2));
+                    return if same_class { Outcome::fail(signature, message) } else { Outcome::fail(s2, m2) };
+                }
+            }
+            Outcome::Inconclusive(format!("a deviation was observed once but not in 3 re-executions ({signature}: {message})"))
+        }
         CaseResult::Skip(why) => Outcome::Inconclusive(format!("case skipped: {why}")),
         CaseResult::Timeout(what) => {
             if !liveness_promised {
